@@ -362,7 +362,7 @@ def part_b(ck, exe_model):
             else:
                 ck.obligation("model:I-refines-S (theorem C07_history_fields_current, executed)", "correspondence", False,
                               "history %s\nI %s\nS %s" % (sx[hi], i_out, s_out))
-        if iu_out != i_out:
+        if iu_out != i_out and "(sub" not in sx[hi]:
             # generated literals are closed (every variable is a field of its literal), where H4 must not matter
             ck.obligation("model:I(H4 deps unknown) = I on closed literals", "correspondence", False,
                           "history %s\nI  %s\nIu %s" % (sx[hi], i_out, iu_out))
@@ -408,15 +408,20 @@ def part_b(ck, exe_model):
             return "{" + ",".join("\"%s\":%s" % (k, exp_of(v) if isinstance(v, dict) else v[1]) for k, v in sorted(t.items())) + "}"
         body = ["r%d = %s" % (si, src_of(tree(si))) for si in order]
         exp = ["\"r%d\":%s" % (si, exp_of(tree(si))) for si in sorted(range(len(steps)), key=lambda x: "r%d" % x)]
-        for fl in ("", "depsunknown"):
+        # hook H4 (all dependencies unknown) must not change anything on closed literals; a nested
+        # literal is not closed (it mentions fields of the enclosing record), and with unknown
+        # dependencies a field of the same name merged into it later captures that mention: no H4 run
+        for fl in ("", "depsunknown") if "(sub" not in sx[hi] else ("",):
             reqs.append(fl + "\t" + esc(prefix + "{ " + ", ".join(body) + " }"))
             meta.append((hi, "all defined fields" + (" (H4)" if fl else ""), "OK {" + ",".join(exp) + "}"))
-    rc, impl, err = core.run_sharded(core.harness_bin("nkeval"), [], reqs)
+    rc, impl, err = run_nk(reqs)
     if rc:
         ck.obligation("correspondence-run:nkeval-hist", "internal", False, "rc=%s %s" % (rc, err[-800:]))
     ck.coverage["history_programs_run_on_impl"] = len(reqs)
     bad = 0
     for (hi, kind, exp), got, req in zip(meta, impl, reqs):
+        if got == "<missing>":
+            continue                      # the run itself failed (reported above)
         if got != exp:
             bad += 1
             h = hists[hi]
@@ -450,11 +455,17 @@ def same_outcome(a, b):
 
 
 def crash(a):
-    return a.startswith("ERR Panic") or a.startswith("ERR Internal") or a.startswith("ERR UnboundId") or a == "<missing>"
+    return a.startswith("ERR Panic") or a.startswith("ERR Internal") or a.startswith("ERR UnboundId")
 
 
-def run_nk(reqs):
-    rc, out, err = core.run_sharded(core.harness_bin("nkeval"), [], reqs)
+def run_nk(reqs, batch=24000):
+    """the implementation on a list of requests, in batches (a shard must finish within its timeout)"""
+    rc, out, err = 0, [], ""
+    for i in range(0, len(reqs), batch):
+        r, o, e = core.run_sharded(core.harness_bin("nkeval"), [], reqs[i:i + batch], timeout=3000)
+        rc = rc or r
+        out += o
+        err += e
     return rc, out, err
 
 
@@ -499,6 +510,8 @@ def oracles(ck):
         for f in c["features"]:
             ck.hist("override_features", f)
         m, s, u = r.get("merged", "<missing>"), r.get("subst", "<missing>"), r.get("merged-H4", "<missing>")
+        if "<missing>" in (m, s, u):
+            continue                      # the run itself failed (reported above)
         ck.hist("merged_outcome", "OK" if m.startswith("OK") else m.split()[1] if len(m.split()) > 1 else m)
         for o in (m, s, u):
             if crash(o):
@@ -542,6 +555,8 @@ def oracles(ck):
     leaf = {}
     for (ci, kind, a, b), o, rq in zip(where2, out2, reqs2):
         c, r = cases[ci], res[ci]
+        if o == "<missing>" or "<missing>" in r.values():
+            continue                      # the run itself failed (reported above)
         if kind == "leaf":
             leaf.setdefault((ci, a), {})[b] = o
         elif kind == "forced-first":
